@@ -20,9 +20,15 @@ UNIT = dict(
         "TimeLimiterConfigBuilder::timeout_duration": dict(file="tlconfig"),
         "TimeLimiterConfigBuilder::timeout_fn": dict(file="tlconfig"),
         "TimeLimiterConfigBuilder::cancel_running_future": dict(file="tlconfig", rules=[("sub", "R16-mut-self", r"\bself\b", "self_", -1), ("inject", None, "start", "let mut self_ = self;")]),
+        "TimeLimiterConfigBuilder::new": dict(file="tlconfig", rules=[("sub", "R6-name", r"String::from\(\"[^\"]*\"\)", "vx_wrap()", 1)]),
+        "TimeLimiterConfigBuilder::default@Default": dict(file="tlconfig"),
+        "CircuitBreakerConfigBuilder::new": dict(file="cbconfig", rules=[("sub", "R6-name", r"String::from\(\"[^\"]*\"\)", "vx_wrap()", 1),
+            ("sub", "R14-float", r"(?<![\w.])0\.5(?![\w.])", "vx_half()", -1), ("sub", "R14-float", r"(?<![\w.])1\.0(?![\w.])", "vx_one()", -1)]),
+        "CircuitBreakerConfigBuilder::default@Default": dict(file="cbconfig"),
         "TimeLimiterConfigBuilder::build": dict(file="tlconfig", rules=[("sub", "R9-paths", r"crate::TimeLimiterLayer", "TimeLimiterLayer", -1)]),
         "FallbackLayer::new": dict(file="fblayer"),
         "FallbackConfigBuilder::new": dict(file="fbconfig", rules=[("sub", "R6-name", r"\"[^\"]*\"\.to_string\(\)", "vx_wrap()", 1)]),
+        "FallbackConfigBuilder::default@Default": dict(file="fbconfig"),
         "FallbackConfigBuilder::value": setter(),
         "FallbackConfigBuilder::value_fn": setter(WRAP),
         "FallbackConfigBuilder::from_error": setter(WRAP),
